@@ -9,7 +9,9 @@
 (* where a call is  Code(model, remove_unused, backend, with schemes)  on   *)
 (* one of two models that share names (so that anything keyed by a name    *)
 (* rather than by the model would leak),  Reload(model)  (save -> load and *)
-(* continue with the new object) or  Split(model)  (to_ode / minus).       *)
+(* continue with the new object) or  Split(model)  (to_ode / minus, code  *)
+(* of both halves generated with argument objects - the requested missing  *)
+(* values, the stiff states - that the client keeps and passes again).     *)
 (* TLC enumerates every history up to MaxCalls; each is replayed in ONE    *)
 (* process and every observation is compared with the same call made alone *)
 (* in a fresh process.                                                     *)
@@ -32,6 +34,6 @@ Spec == Init /\ [][Next]_vars
 
 C09_HistoryIndependent == \A i \in 1..Len(hist) : obs[i] = ObsOf(hist[i])
 \* only histories that end in an observable call and contain at least two different models or options are interesting
-Interesting == Len(hist) = MaxCalls /\ hist[Len(hist)].op = "code" /\ \E i \in 1..(Len(hist) - 1) : hist[i] # hist[Len(hist)]
+Interesting == Len(hist) = MaxCalls /\ hist[Len(hist)].op \in {"code", "split"} /\ \E i \in 1..(Len(hist) - 1) : hist[i] # hist[Len(hist)]
 EmitHist == Interesting => PrintT(ToJson([hist |-> hist]))
 =============================================================================
